@@ -500,6 +500,8 @@ def compute_summaries(repo, cg, modules, rounds=6):
                     for t in fa.ret_tuples[1:]:
                         els = [a if a == b else (meet(a, b) if not isinstance(a, tuple) and not isinstance(b, tuple) else UNK) for a, b in zip(els, t)]
                     r = ("tuple", els)
+            if _memoised(f.node):
+                r = SHARED          # functools.lru_cache / cache: every caller of equal arguments gets the SAME object back
             if summ.ret.get(f.fq) != r:
                 summ.ret[f.fq] = r
                 changed = True
@@ -536,6 +538,15 @@ def compute_summaries(repo, cg, modules, rounds=6):
         if not changed:
             break
     return summ
+
+
+def _memoised(fnode):
+    for d in fnode.decorator_list:
+        t = d.func if isinstance(d, ast.Call) else d
+        nm = t.attr if isinstance(t, ast.Attribute) else (t.id if isinstance(t, ast.Name) else "")
+        if nm in ("lru_cache", "cache", "cached_property", "memoize", "memoized"):
+            return True
+    return False
 
 
 def _closure_env_guess(g):
